@@ -179,8 +179,8 @@ Print Assumptions C04_fuel_suffices_client.
 
 (* The step count, for ALL inputs: in every state of every run
      steps <= 400*(|bs|+1) + c + spin     and     spin <= excess
-   (c = 1 for Unmarshal, 320 for a service request, 320 + number of return types for a client
-   response).  All the super-linear time there is, is iterations run after the input ended. *)
+   (c = 1 for Unmarshal, 320 for a service request, 330 + twice the number of return types for a
+   client response).  All the super-linear time there is, is iterations run after the input ended. *)
 Theorem C04_steps_bound : forall orc reg fx fuel bs smp sh, enough fuel bs ->
   all_states (within 1 bs) (unmarshal orc reg fx fuel bs smp sh).
 Proof. intros. apply unmarshal_bounds. assumption. Qed.
@@ -190,7 +190,7 @@ Theorem C04_steps_bound_service : forall orc reg fx fuel ms missing bs, enough f
 Proof. intros. apply service_bounds. assumption. Qed.
 Print Assumptions C04_steps_bound_service.
 Theorem C04_steps_bound_client : forall orc reg fx fuel rts bs, enough fuel bs ->
-  all_states (within (3 * c0 + 20 + Z.of_nat (length rts)) bs) (client_decode orc reg fx fuel rts bs).
+  all_states (within (3 * c0 + 30 + 2 * Z.of_nat (length rts)) bs) (client_decode orc reg fx fuel rts bs).
 Proof. intros. apply client_bounds. assumption. Qed.
 Print Assumptions C04_steps_bound_client.
 
@@ -201,11 +201,38 @@ Theorem C04_terminates_linear_partial : forall c bs s', within c bs s' -> excess
 Proof. exact within_no_excess. Qed.
 Print Assumptions C04_terminates_linear_partial.
 
+(* ---- C04_alloc_linear ---- *)
+
+(* For ALL inputs, in every state of every run: the bytes allocated on the word of the wire are at most
+     um * (steps + excess + |bs|),
+   um = the largest single unit used in the run (the size of one element / pointer target / map entry
+   of a shape in play, 48 per field of an object read as a map, 32 per argument, 16 per field name,
+   3 per UTF-16 unit): allocation is paid for by steps, or it is excess. *)
+Theorem C04_alloc_bound : forall orc reg fx fuel bs smp sh,
+  all_states (alloc_ok bs) (unmarshal orc reg fx fuel bs smp sh).
+Proof. exact unmarshal_alloc. Qed.
+Print Assumptions C04_alloc_bound.
+Theorem C04_alloc_bound_service : forall orc reg fx fuel ms missing bs,
+  all_states (alloc_ok bs) (service_decode orc reg fx fuel ms missing bs).
+Proof. exact service_alloc. Qed.
+Print Assumptions C04_alloc_bound_service.
+Theorem C04_alloc_bound_client : forall orc reg fx fuel rts bs,
+  all_states (alloc_ok bs) (client_decode orc reg fx fuel rts bs).
+Proof. exact client_alloc. Qed.
+Print Assumptions C04_alloc_bound_client.
+
+(* hence, with the step bound: alloc <= um * (401*(|bs|+1) + c + 2*excess); under the exact guard
+   excess = 0 (every announced count and length is delivered by the input) memory is linear *)
+Theorem C04_alloc_linear_partial : forall c bs s', alloc_ok bs s' -> within c bs s' -> (0 <= c)%Z ->
+  (Z.of_N (alloc s') <= Z.of_N (um s') * ((K + 1) * (Z.of_nat (length bs) + 1) + c + 2 * Z.of_N (excess s')))%Z.
+Proof. exact alloc_linear. Qed.
+Print Assumptions C04_alloc_linear_partial.
+
 (* ---- C04_terminates_linear / C04_alloc_linear: refuted on the pinned tree ---- *)
 
 Theorem C04_terminates_linear_refuted :
   done_with (U (B "a99999999999{") true (SArray 1 int_))
-    (fun s => (1000 * N.of_nat (length (B "a99999999999{")) + 1000000 < work (B "a99999999999{") s)%N /\ alloc s = 0%N).
+    (fun s => (1000 * N.of_nat (length (B "a99999999999{")) + 1000000 < work (B "a99999999999{") s)%N).
 Proof. exact w_steps. Qed.
 Print Assumptions C04_terminates_linear_refuted.
 Theorem C04_alloc_linear_refuted :
